@@ -280,17 +280,25 @@ func ruleSemGate(e *Env, rule, numRule string) {
 	world := "limit off"
 	fixed := func(a, b pred.Val) (int, bool, bool) {
 		as, bs := a.String(), b.String()
-		if world == "empty" && as == "len(input)" && bs == "0" {
-			return 0, true, true
+		empty := strings.HasPrefix(world, "empty")
+		if empty && as == "len(input)" {
+			// the empty text against a constant length
+			if c, ok := b.(pred.Const); ok && c.V != nil && c.V.Kind() == constant.Int {
+				return -constant.Sign(c.V), true, true
+			}
 		}
-		if world == "limit on" {
+		if strings.Contains(world, "limit on") || world == "at the limit" {
+			rel := -1 // the text is shorter than the limit …
+			if world == "at the limit" {
+				rel = 0 // … or exactly as long: still within it
+			}
 			switch {
 			case as == "*sem.MaxInputLength" && bs == "0":
 				return 1, true, true
 			case as == "len(input)" && bs == "*sem.MaxInputLength":
-				return -1, true, true
+				return rel, true, true
 			case as == "*sem.MaxInputLength" && bs == "len(input)":
-				return 1, true, true
+				return -rel, true, true
 			}
 		}
 		if as == "len(input)" || as == "len(slice[1:](input))" {
@@ -342,7 +350,7 @@ func ruleSemGate(e *Env, rule, numRule string) {
 			}
 		}
 	}
-	for _, w := range []string{"limit off", "limit on", "empty"} {
+	for _, w := range []string{"limit off", "limit on", "at the limit", "empty", "empty, limit on"} {
 		world = w
 		suffix := ""
 		if w != "limit off" {
@@ -364,7 +372,7 @@ func ruleSemGate(e *Env, rule, numRule string) {
 				e.S.Unk(rule, site, construct, lf.Out.Ret.String(), e.Pos(ut))
 				continue
 			}
-			if w == "empty" {
+			if strings.HasPrefix(w, "empty") {
 				// the empty text is not a word of the grammar: refused with the typed error and a zero value
 				sv, isS := t[0].(*pred.StructV)
 				if ek := semErrKind(t[1]); strings.HasPrefix(ek, "ParseError(") && isS && allZero(sv) {
